@@ -179,7 +179,7 @@ def main():
         'not_applicable': na,
         'notes': 'Technique family: static analysis only. Exit 0 pass / exit 1 with VIOLATION '
                  'line / exit 2 ANALYSIS-ERROR (missing anchor, unrecognised shape, floor, '
-                 'self-test). Known findings: /verif/known_findings.jsonl. Fixes of genuine '
+                 'self-test). Known findings: /verif/known_findings.jsonl (one recorded and not repaired: F29 under C14, copy() of a model with an AdaptiveDistance node shares its node-level state; see DESIGN.md 12.7). Fixes of genuine '
                  'defects are the "fix:" commits in /repo, recorded there as fixed entries.',
     }
     with open(os.path.join(HERE, 'MANIFEST.json'), 'w') as f:
